@@ -1,54 +1,883 @@
+// Harness for C04 (CSS defaulting / computed values).
+//
+// Each case is a real document: random element tree (+ pseudo-elements, @page
+// contexts and margin boxes, anonymous-box styles), every node declaring, for a
+// random subset of ALL properties, inherit / initial / an explicit value.  The
+// document goes through /repo's real pipeline (HTML parser, CSS parser,
+// validators, cascade, newStyleFor); the cascaded declarations every style
+// object was built from are read back through the verif hook and become the
+// model's input.  Then a random access history of Get calls (and of late
+// constructions of page / anonymous styles) runs on the real objects; every
+// returned value is recorded.  Check/C04.v replays the history on the model.
+//
+// The first cases (CTab*) carry the runtime content of the tables that
+// Generated/PropTables.v translates from the source text.
 package main
 
 import (
+	"encoding/json"
+	"flag"
 	"fmt"
+	"math"
 	"os"
+	"path/filepath"
+	"regexp"
+	"sort"
+	"strings"
+	"time"
 
+	"verifharness/vlib"
+
+	pa "github.com/benoitkugler/webrender/css/parser"
 	pr "github.com/benoitkugler/webrender/css/properties"
+	"github.com/benoitkugler/webrender/css/validation"
 	"github.com/benoitkugler/webrender/html/tree"
+	"github.com/benoitkugler/webrender/logger"
 	"github.com/benoitkugler/webrender/utils"
 	"golang.org/x/net/html"
 )
 
-func main() {
-	src := os.Args[1]
-	doc, err := tree.NewHTML(utils.InputString(src), "http://verif.test/", nil, "")
-	if err != nil {
-		panic(err)
+// ---------------------------------------------------------------- value printing
+
+func coqStr(s string) (string, bool) {
+	for i := 0; i < len(s); i++ {
+		if s[i] < 0x20 || s[i] > 0x7e {
+			return "", false
+		}
+	}
+	return `"` + strings.ReplaceAll(s, `"`, `""`) + `"`, true
+}
+
+func finite(f pr.Float) bool { return !math.IsNaN(float64(f)) && !math.IsInf(float64(f), 0) }
+
+var addrRe = regexp.MustCompile(`0x[0-9a-f]{8,}`)
+
+// interner gives opaque values an identity: per property, by canonical print;
+// id 0 is the initial value of the property.
+type interner struct {
+	ids      map[pr.KnownProp]map[string]int
+	unstable bool
+}
+
+func newInterner() *interner { return &interner{ids: map[pr.KnownProp]map[string]int{}} }
+
+func (in *interner) id(p pr.KnownProp, v interface{}) int {
+	m := in.ids[p]
+	if m == nil {
+		m = map[string]int{fmt.Sprintf("%#v", pr.InitialValues[p]): 0}
+		in.ids[p] = m
+	}
+	s := fmt.Sprintf("%#v", v)
+	if addrRe.MatchString(s) {
+		in.unstable = true
+	}
+	if id, ok := m[s]; ok {
+		return id
+	}
+	id := len(m)
+	m[s] = id
+	return id
+}
+
+// structural term of a value, or "" when the type is opaque for the model
+func structural(v interface{}) string {
+	switch x := v.(type) {
+	case pr.DimOrS:
+		s, ok := coqStr(x.S)
+		if !ok {
+			return ""
+		}
+		if math.IsInf(float64(x.Value), 1) && x.Unit == pr.Px && x.S == "" {
+			return "VInfPx"
+		}
+		if !finite(x.Value) {
+			return ""
+		}
+		return fmt.Sprintf("VDim %s %s %d", s, vlib.Q32(float32(x.Value)), x.Unit)
+	case pr.String:
+		if s, ok := coqStr(string(x)); ok {
+			return "VStr " + s
+		}
+	case pr.Page:
+		if s, ok := coqStr(string(x)); ok {
+			return "VStr " + s
+		}
+	case pr.IntString:
+		if s, ok := coqStr(x.String); ok {
+			return fmt.Sprintf("VIntStr %s %s", s, vlib.Z(x.Int))
+		}
+	case pr.Int:
+		return "VInt " + vlib.Z(int(x))
+	case pr.Display:
+		a, ok1 := coqStr(x[0])
+		b, ok2 := coqStr(x[1])
+		c, ok3 := coqStr(x[2])
+		if ok1 && ok2 && ok3 {
+			return fmt.Sprintf("VDisplay %s %s %s", a, b, c)
+		}
+	case pr.BoolString:
+		if s, ok := coqStr(x.String); ok {
+			return fmt.Sprintf("VBoolStr %s %s", vlib.Bool(x.Bool), s)
+		}
+	case pr.Decorations:
+		return fmt.Sprintf("VDecor %d", uint8(x))
+	case pr.Marks:
+		return fmt.Sprintf("VMarks %s %s", vlib.Bool(x.Crop), vlib.Bool(x.Cross))
+	case pr.Point:
+		if finite(x[0].Value) && finite(x[1].Value) {
+			return fmt.Sprintf("VPoint %s %d %s %d", vlib.Q32(float32(x[0].Value)), x[0].Unit,
+				vlib.Q32(float32(x[1].Value)), x[1].Unit)
+		}
+	}
+	return ""
+}
+
+func (in *interner) term(p pr.KnownProp, v interface{}) string {
+	if s := structural(v); s != "" {
+		// a property whose initial value is opaque for the model is opaque throughout
+		if structural(pr.InitialValues[p]) != "" {
+			return s
+		}
+	}
+	return fmt.Sprintf("VOpaque %d", in.id(p, v))
+}
+
+// ---------------------------------------------------------------- value pools
+
+var lengthNums = []string{"0", "1", "2", "3", "12", "0.5", "1.5", "2.25", "10", "100", "7.3", "16", "-2", "-0.5", "0.1", "37"}
+var lengthUnits = []string{"px", "pt", "pc", "in", "cm", "mm", "q", "em", "rem", "%", "", "ex", "ch", "Q", "PX", "Em"}
+
+var dimKeywords = []string{"auto", "normal", "none", "content", "thin", "medium", "thick", "baseline", "middle",
+	"sub", "super", "top", "bottom", "text-top", "text-bottom", "xx-small", "x-small", "small", "large", "x-large",
+	"xx-large", "larger", "smaller", "2", "1.2", "0", "min-content", "max-content", "fit-content"}
+
+var stringKeywords = []string{"none", "auto", "normal", "hidden", "visible", "solid", "dashed", "dotted", "double",
+	"groove", "ridge", "inset", "outset", "left", "right", "both", "block", "inline", "absolute", "relative", "fixed",
+	"static", "always", "avoid", "page", "column", "avoid-page", "avoid-column", "recto", "verso", "collapse",
+	"separate", "top", "bottom", "ltr", "rtl", "show", "hide", "italic", "oblique", "small-caps", "uppercase",
+	"lowercase", "capitalize", "pre", "nowrap", "pre-wrap", "pre-line", "break-all", "keep-all", "break-word",
+	"anywhere", "manual", "start", "end", "center", "justify", "match-parent", "inside", "outside", "balance",
+	"all", "open", "closed", "slice", "clone", "content-box", "border-box", "row", "row-reverse", "column-reverse",
+	"wrap", "wrap-reverse", "fill", "contain", "cover", "scale-down", "clip", "ellipsis", "pixelated", "crisp-edges",
+	"embed", "isolate", "bidi-override", "plaintext", "discard", "condensed", "expanded", "semi-condensed",
+	"ultra-expanded", "balance-all", "block-end", "inline-start", "line-through", "wavy", "overflow", "full-width",
+	"sub", "super", "text", "button", "checkbox", "\"-\"", "\"ab\""}
+
+var displayValues = []string{"inline", "block", "inline-block", "list-item", "table", "inline-table", "table-cell",
+	"table-row", "table-row-group", "table-caption", "table-column", "flex", "inline-flex", "grid", "inline-grid",
+	"none", "flow-root", "inline list-item", "block flow", "inline flow", "block flow list-item", "inline flow-root",
+	"contents", "run-in"}
+
+var miscValues = []string{"red", "#123", "rgb(1, 2, 3)", "currentColor", "transparent", "0", "1", "2", "3", "-1", "10",
+	"0.5", "underline", "overline", "line-through", "underline overline", "blink", "foo", "bar", "running(h)",
+	"url(a.png)", "\"str\"", "counter(c)", "linear-gradient(red, blue)", "translate(1em, 2px)", "\"a\" \"b\"", "1fr",
+	"repeat(2, 1fr)", "span 2", "attr(title)", "attr(id)", "1em 2px", "3pt 4pt", "10% 20%", "2cm", "a4", "A5 landscape",
+	"10cm 20cm", "serif", "Ahem, sans-serif", "\"x\" 1", "c 2", "crop cross", "90deg", "from-image", "50%", "1 2 3 4",
+	"2 / 3", "left top", "center", "target-counter(attr(href), page)", "string(x)", "content()", "symbols(cyclic \"a\" \"b\")",
+	"decimal", "square", "\"<\" \">\"", "5 2 2", "100 200", "1.5", "2em 1ex", "0 0"}
+
+var fontWeights = []string{"normal", "bold", "bolder", "lighter", "100", "200", "300", "400", "500", "600", "700", "800", "900", "350"}
+
+func randLength(r *vlib.Rng) string {
+	n := vlib.Pick(r, lengthNums)
+	u := vlib.Pick(r, lengthUnits[:11])
+	if r.Chance(1, 12) {
+		u = vlib.Pick(r, lengthUnits)
+	}
+	return n + u
+}
+
+func candidate(r *vlib.Rng, p pr.KnownProp) string {
+	if r.Chance(1, 8) {
+		return vlib.Pick(r, miscValues)
+	}
+	switch p {
+	case pr.PFontWeight:
+		return vlib.Pick(r, fontWeights)
+	case pr.PDisplay:
+		return vlib.Pick(r, displayValues)
+	}
+	switch pr.InitialValues[p].(type) {
+	case pr.DimOrS:
+		if r.Chance(1, 3) {
+			return vlib.Pick(r, dimKeywords)
+		}
+		return randLength(r)
+	case pr.String, pr.BoolString, pr.Page:
+		return vlib.Pick(r, stringKeywords)
+	case pr.Point:
+		if r.Bool() {
+			return randLength(r) + " " + randLength(r)
+		}
+		return randLength(r)
+	case pr.Decorations, pr.IntString, pr.Int:
+		return vlib.Pick(r, miscValues)
+	}
+	switch r.Intn(4) {
+	case 0:
+		return randLength(r)
+	case 1:
+		return vlib.Pick(r, stringKeywords)
+	default:
+		return vlib.Pick(r, miscValues)
+	}
+}
+
+// valid pool per property: candidates the validators accept (memoised per process)
+var validCache = map[string]bool{}
+
+func accepted(name, value string) bool {
+	k := name + ":" + value
+	if v, ok := validCache[k]; ok {
+		return v
+	}
+	decls := validation.PreprocessDeclarations("http://verif.test/", pa.ParseBlocksContentsString(k))
+	ok := len(decls) > 0
+	validCache[k] = ok
+	return ok
+}
+
+func randDecl(r *vlib.Rng, p pr.KnownProp) string {
+	name := p.String()
+	switch k := r.Intn(10); {
+	case k < 2:
+		return name + ":inherit"
+	case k < 4:
+		return name + ":initial"
+	}
+	if r.Chance(1, 12) { // pending value: validated at computed-value time
+		switch r.Intn(4) {
+		case 0:
+			return name + ":var(--" + vlib.Pick(r, varNames) + ")"
+		case 1:
+			return name + ":var(--" + vlib.Pick(r, varNames) + ", " + candidate(r, p) + ")"
+		case 2:
+			return name + ":var(--undefined)"
+		default:
+			return name + ":" + candidate(r, p) + " var(--" + vlib.Pick(r, varNames) + ")"
+		}
+	}
+	for try := 0; try < 6; try++ {
+		c := candidate(r, p)
+		if accepted(name, c) || r.Chance(1, 10) { // keep a few invalid ones: they must be dropped alone
+			return name + ":" + c
+		}
+	}
+	return name + ":inherit"
+}
+
+// properties a node is likely to interact through
+var hotProps = []pr.KnownProp{
+	pr.PFontSize, pr.PFontSize, pr.PFontWeight, pr.PFontWeight, pr.PDisplay, pr.PFloat, pr.PPosition, pr.PLineHeight,
+	pr.PBorderTopWidth, pr.PBorderTopStyle, pr.PBorderLeftWidth, pr.PBorderLeftStyle, pr.POutlineWidth, pr.POutlineStyle,
+	pr.PColumnRuleWidth, pr.PColumnRuleStyle, pr.PWidth, pr.PMarginLeft, pr.PPaddingTop, pr.PTextIndent, pr.PLetterSpacing,
+	pr.PWordSpacing, pr.PVerticalAlign, pr.PTabSize, pr.PTextDecorationLine, pr.PTextDecorationColor, pr.PTextDecorationStyle,
+	pr.PPage, pr.PBreakBefore, pr.PBorderSpacing, pr.PColumnGap, pr.PMaxWidth, pr.PBorderTopLeftRadius, pr.PColor, pr.PSize,
+	pr.PBleedTop, pr.PTransformOrigin, pr.PHyphenateLimitZone, pr.PFlexBasis, pr.PColumnWidth, pr.PRowGap, pr.PTop,
+}
+
+func randProp(r *vlib.Rng) pr.KnownProp {
+	if r.Chance(2, 5) {
+		return vlib.Pick(r, hotProps)
+	}
+	return pr.KnownProp(r.Range(1, int(pr.NbProperties)-1))
+}
+
+var varNames = []string{"a", "b", "c", "d"}
+
+func randDecls(r *vlib.Rng, max int) string {
+	n := r.Intn(max + 1)
+	if r.Chance(1, 6) {
+		n = 0
+	}
+	var parts []string
+	for r.Chance(1, 5) { // custom properties
+		v := vlib.Pick(r, []string{"inherit", "initial", "bolder", "2em", "12px", "red", "auto", "none", "", "var(--a)", "var(--b)", "x y", "3"})
+		if r.Bool() {
+			v = candidate(r, randProp(r))
+		}
+		parts = append(parts, "--"+vlib.Pick(r, varNames)+":"+v)
+	}
+	for i := 0; i < n; i++ {
+		parts = append(parts, randDecl(r, randProp(r)))
+	}
+	return strings.Join(parts, ";")
+}
+
+// ---------------------------------------------------------------- documents
+
+var tags = []string{"x-a", "x-b", "x-c", "div", "p", "span", "ul", "ol", "li", "h1", "h3", "a", "b", "strong", "small",
+	"big", "sub", "sup", "center", "pre", "blockquote", "q", "u", "s", "ins", "del", "em", "table", "tr", "td", "th",
+	"caption", "dl", "dd", "section", "article", "code", "address", "fieldset", "hr"}
+
+type docSrc struct {
+	HTML  string
+	pages []utils.PageElement
+}
+
+func genDoc(r *vlib.Rng) docSrc {
+	var sb, css strings.Builder
+	id := 0
+	maxDecl := vlib.Pick(r, []int{3, 8, 8, 20})
+	var emit func(depth int)
+	emit = func(depth int) {
+		tag := vlib.Pick(r, tags)
+		id++
+		my := id
+		fmt.Fprintf(&sb, `<%s id="n%d" title="t%d" style="%s">`, tag, my, my, strings.ReplaceAll(randDecls(r, maxDecl), `"`, "&quot;"))
+		for _, ps := range []string{"before", "after", "marker", "first-line", "first-letter"} {
+			if r.Chance(1, 10) {
+				fmt.Fprintf(&css, "#n%d::%s{%s}\n", my, ps, randDecls(r, maxDecl))
+			}
+		}
+		if r.Chance(1, 3) {
+			sb.WriteString("t")
+		}
+		if depth < 5 {
+			nc := r.Intn(4)
+			if depth >= 3 {
+				nc = r.Intn(2)
+			}
+			for i := 0; i < nc && id < 30; i++ {
+				emit(depth + 1)
+			}
+		}
+		fmt.Fprintf(&sb, "</%s>", tag)
+	}
+	nTop := r.Range(1, 3)
+	var body strings.Builder
+	for i := 0; i < nTop; i++ {
+		sb.Reset()
+		emit(1)
+		body.WriteString(sb.String())
+	}
+	// @page rules
+	if r.Chance(2, 3) {
+		fmt.Fprintf(&css, "@page{%s}\n", randDecls(r, maxDecl))
+		if r.Bool() {
+			fmt.Fprintf(&css, "@page :first{%s; @top-left{%s} @bottom-center{%s}}\n", randDecls(r, maxDecl), randDecls(r, maxDecl), randDecls(r, maxDecl))
+		}
+		if r.Bool() {
+			fmt.Fprintf(&css, "@page foo{%s; @top-right{%s}}\n", randDecls(r, maxDecl), randDecls(r, maxDecl))
+		}
+	}
+	// a few type selectors so that declarations do not all come from style attributes
+	for i := 0; i < r.Intn(4); i++ {
+		fmt.Fprintf(&css, "%s{%s}\n", vlib.Pick(r, tags), randDecls(r, maxDecl))
+	}
+	rootStyle, bodyStyle := randDecls(r, maxDecl), randDecls(r, maxDecl)
+	doc := fmt.Sprintf(`<html style="%s"><head><style>%s</style></head><body style="%s">%s</body></html>`,
+		strings.ReplaceAll(rootStyle, `"`, "&quot;"), css.String(), strings.ReplaceAll(bodyStyle, `"`, "&quot;"), body.String())
+	pages := []utils.PageElement{
+		{Side: "right", First: true, Index: 0},
+		{Side: "left", Index: 1},
+		{Side: "right", Name: "foo", Index: 2},
+		{Side: "left", Blank: true, Index: 3},
+	}
+	return docSrc{HTML: doc, pages: pages}
+}
+
+// one style object of the document under test
+type snode struct {
+	style  pr.ElementStyle
+	parent int // -1: none
+	anon   bool
+	desc   string
+	decls  []string // Coq terms `D p c`
+	orc    []string // Coq terms `Orc p v`
+	props  []pr.KnownProp
+}
+
+type world struct {
+	doc    *tree.HTML
+	sf     *tree.StyleFor
+	styles map[utils.ElementKey]pr.ElementStyle
+	nodes  []*snode
+	index  map[pr.ElementStyle]int
+	in     *interner
+}
+
+func build(src string) (w *world, err interface{}) {
+	defer func() {
+		if r := recover(); r != nil {
+			err = r
+		}
+	}()
+	doc, e := tree.NewHTML(utils.InputString(src), "http://verif.test/", nil, "")
+	if e != nil {
+		return nil, e
 	}
 	var pageRules []tree.PageRule
 	sf := tree.GetAllComputedStyles(doc, nil, false, nil, nil, &pageRules, nil, false, nil)
-	styles := tree.VerifC04Styles(sf)
-	var walk func(n *html.Node, d int)
-	walk = func(n *html.Node, d int) {
-		if n.Type == html.ElementNode {
-			for _, ps := range []string{"", "before", "marker"} {
-				st := styles[(*utils.HTMLNode)(n).ToKey(ps)]
-				if st == nil {
-					continue
-				}
-				casc, _ := tree.VerifC04Cascaded(st)
-				fmt.Printf("%*s<%s>::%s cascaded=%d\n", d*2, "", n.Data, ps, len(casc))
-				for k, v := range casc {
-					fmt.Printf("%*s   %s = %#v\n", d*2, "", k, v)
-				}
-				for _, p := range os.Args[2:] {
-					func() {
-						defer func() {
-							if r := recover(); r != nil {
-								fmt.Printf("%*s   GET %s PANIC %v\n", d*2, "", p, r)
-							}
-						}()
-						kp := pr.PropsFromNames[p]
-						fmt.Printf("%*s   GET %s -> %#v\n", d*2, "", p, st.Get(kp.Key()))
-					}()
-				}
+	return &world{doc: doc, sf: sf, styles: tree.VerifC04Styles(sf), index: map[pr.ElementStyle]int{}}, nil
+}
+
+func describe(n *html.Node) string {
+	switch n.Type {
+	case html.ElementNode:
+		for _, a := range n.Attr {
+			if a.Key == "id" {
+				return "<" + n.Data + "#" + a.Val + ">"
 			}
 		}
-		for c := n.FirstChild; c != nil; c = c.NextSibling {
-			walk(c, d+1)
+		return "<" + n.Data + ">"
+	case html.TextNode:
+		return "#text"
+	}
+	return "#node"
+}
+
+// casc term of a declared value
+func (w *world) cascTerm(style pr.ElementStyle, p pr.KnownProp, v pr.DeclaredValue) string {
+	switch x := v.(type) {
+	case pr.DefaultValue:
+		if x == pr.Inherit {
+			return "CInherit"
+		}
+		return "CInitial"
+	case pr.RawTokens:
+		// pending value: the outcome of var() substitution + validation is an input of the model
+		val, failed, _ := tree.VerifC04ResolvePending(style, p.Key())
+		if failed {
+			return "CPending PErr"
+		}
+		switch y := val.(type) {
+		case pr.DefaultValue:
+			if y == pr.Inherit {
+				return "CPending PInherit"
+			}
+			return "CPending PInitial"
+		case pr.CssProperty:
+			return "CPending (PVal (" + w.in.term(p, y) + "))"
+		}
+		return "CPending PErr"
+	case pr.CssProperty:
+		return "CExplicit (" + w.in.term(p, x) + ")"
+	}
+	return "CPending PErr"
+}
+
+func (w *world) addNode(style pr.ElementStyle, parent int, desc string) int {
+	nd := &snode{style: style, parent: parent, desc: desc}
+	casc, isComputed := tree.VerifC04Cascaded(style)
+	nd.anon = !isComputed
+	var keys []pr.PropKey
+	for k := range casc {
+		if k.KnownProp != 0 {
+			keys = append(keys, k)
 		}
 	}
-	walk((*html.Node)(doc.Root), 0)
-	fmt.Println("nb", pr.NbProperties)
+	sort.Slice(keys, func(i, j int) bool { return keys[i].KnownProp < keys[j].KnownProp })
+	for _, k := range keys {
+		nd.decls = append(nd.decls, fmt.Sprintf("D %d (%s)", k.KnownProp, w.cascTerm(style, k.KnownProp, casc[k])))
+		nd.props = append(nd.props, k.KnownProp)
+	}
+	w.nodes = append(w.nodes, nd)
+	w.index[style] = len(w.nodes) - 1
+	return len(w.nodes) - 1
 }
+
+// registers the element / text-node styles in tree order, then the pseudo-elements
+func (w *world) collectElements() {
+	type pk struct {
+		el     int
+		pseudo string
+		key    utils.ElementKey
+	}
+	var pseudos []pk
+	byNode := map[*html.Node]int{}
+	var walk func(n *html.Node)
+	walk = func(n *html.Node) {
+		if st, ok := w.styles[(*utils.HTMLNode)(n).ToKey("")]; ok && st != nil {
+			parent := -1
+			if n.Parent != nil {
+				if pi, ok := byNode[n.Parent]; ok {
+					parent = pi
+				}
+			}
+			byNode[n] = w.addNode(st, parent, describe(n))
+		}
+		for c := n.FirstChild; c != nil; c = c.NextSibling {
+			walk(c)
+		}
+	}
+	walk((*html.Node)(w.doc.Root))
+	for k, st := range w.styles {
+		if k.Element != nil && k.PseudoType != "" && st != nil {
+			if ei, ok := byNode[(*html.Node)(k.Element)]; ok {
+				pseudos = append(pseudos, pk{ei, k.PseudoType, k})
+			}
+		}
+	}
+	sort.Slice(pseudos, func(i, j int) bool {
+		if pseudos[i].el != pseudos[j].el {
+			return pseudos[i].el < pseudos[j].el
+		}
+		return pseudos[i].pseudo < pseudos[j].pseudo
+	})
+	for _, p := range pseudos {
+		w.addNode(w.styles[p.key], p.el, w.nodes[p.el].desc+"::"+p.pseudo)
+	}
+}
+
+// adds the page context `pt` and its margin boxes; returns the new node indices
+func (w *world) addPage(pt utils.PageElement) []int {
+	before := map[utils.ElementKey]bool{}
+	for k := range w.styles {
+		before[k] = true
+	}
+	w.sf.SetPageComputedStylesT(pt, w.doc)
+	w.styles = tree.VerifC04Styles(w.sf)
+	pageKey := pt.ToKey("")
+	if before[pageKey] {
+		return nil
+	}
+	var out []int
+	pi := w.addNode(w.styles[pageKey], 0, fmt.Sprintf("@page%+v", pt))
+	out = append(out, pi)
+	var mbs []string
+	for k := range w.styles {
+		if !before[k] && k.Element == nil && k.PageType == pt && k.PseudoType != "" {
+			mbs = append(mbs, k.PseudoType)
+		}
+	}
+	sort.Strings(mbs)
+	for _, ps := range mbs {
+		out = append(out, w.addNode(w.styles[pt.ToKey(ps)], pi, fmt.Sprintf("@page%+v %s", pt, ps)))
+	}
+	return out
+}
+
+func (w *world) addAnon(parent int) int {
+	st := tree.VerifC04NewAnonymous(w.nodes[parent].style)
+	return w.addNode(st, parent, "anonymous("+w.nodes[parent].desc+")")
+}
+
+type getRes struct {
+	term  string
+	panic string
+}
+
+func (w *world) get(n int, p pr.KnownProp) (out getRes) {
+	defer func() {
+		if r := recover(); r != nil {
+			out = getRes{term: "RPanic", panic: fmt.Sprint(r)}
+		}
+	}()
+	v := w.nodes[n].style.Get(p.Key())
+	return getRes{term: "ROk (" + w.in.term(p, v) + ")"}
+}
+
+// construction steps of the late nodes, in the order the history performs them
+type lateStep struct {
+	page   *utils.PageElement
+	parent int // anonymous box
+}
+
+func optN(i int) string {
+	if i < 0 {
+		return "None"
+	}
+	return fmt.Sprintf("(Some %d)", i)
+}
+
+func runDoc(seed uint64, corpus string) vlib.Case {
+	r := vlib.NewRng(seed)
+	var src docSrc
+	if corpus != "" {
+		src = docSrc{HTML: corpus, pages: []utils.PageElement{{Side: "right", First: true}}}
+	} else {
+		src = genDoc(r)
+	}
+	nOps := vlib.Pick(r, []int{150, 300, 500})
+	if os.Getenv("VERIF_TIER") == "thorough" {
+		nOps *= 2
+	}
+
+	w, err := build(src.HTML)
+	if err != nil {
+		return vlib.Case{Kind: "build-panic", Coq: "CBuildPanic", Desc: map[string]interface{}{"html": src.HTML, "error": fmt.Sprint(err)},
+			Tags: []string{"build-panic"}, Nontrivial: true}
+	}
+	w.in = newInterner()
+	w.collectElements()
+	nInitial := len(w.nodes)
+
+	var ops []string
+	var trace []string
+	for i := 0; i < nInitial; i++ {
+		ops = append(ops, fmt.Sprintf("K %d true", i))
+	}
+	var late []lateStep
+	tags := map[string]bool{}
+	panics := 0
+	pagesLeft := append([]utils.PageElement{}, src.pages...)
+	sweepNode := -1
+	var sweepProps []pr.KnownProp
+	for i := 0; i < nOps; i++ {
+		k := r.Intn(100)
+		switch {
+		case k < 3 && len(pagesLeft) > 0:
+			pt := pagesLeft[0]
+			pagesLeft = pagesLeft[1:]
+			func() {
+				defer func() {
+					if rec := recover(); rec != nil {
+						ops = append(ops, fmt.Sprintf("K %d false", len(w.nodes)))
+						tags["page-construction-panic"] = true
+					}
+				}()
+				for _, ni := range w.addPage(pt) {
+					ops = append(ops, fmt.Sprintf("K %d true", ni))
+					tags["page"] = true
+				}
+				ptc := pt
+				late = append(late, lateStep{page: &ptc})
+			}()
+		case k < 9:
+			parent := r.Intn(len(w.nodes))
+			ni := w.addAnon(parent)
+			late = append(late, lateStep{parent: parent})
+			ops = append(ops, fmt.Sprintf("K %d true", ni))
+			tags["anonymous"] = true
+		default:
+			var n int
+			var p pr.KnownProp
+			if sweepNode >= 0 && len(sweepProps) > 0 {
+				n, p = sweepNode, sweepProps[len(sweepProps)-1]
+				sweepProps = sweepProps[:len(sweepProps)-1]
+			} else {
+				n = r.Intn(len(w.nodes))
+				if r.Chance(1, 40) { // all properties of one node, in random order
+					sweepNode = n
+					sweepProps = nil
+					for q := 1; q < int(pr.NbProperties); q++ {
+						sweepProps = append(sweepProps, pr.KnownProp(q))
+					}
+					for j := len(sweepProps) - 1; j > 0; j-- {
+						l := r.Intn(j + 1)
+						sweepProps[j], sweepProps[l] = sweepProps[l], sweepProps[j]
+					}
+					tags["sweep"] = true
+				}
+				// a property declared on the node or on one of its ancestors, else any
+				switch c := r.Intn(10); {
+				case c < 4:
+					m := n
+					for hops := r.Intn(4); hops > 0 && w.nodes[m].parent >= 0; hops-- {
+						m = w.nodes[m].parent
+					}
+					if len(w.nodes[m].props) > 0 {
+						p = vlib.Pick(r, w.nodes[m].props)
+					} else {
+						p = randProp(r)
+					}
+				default:
+					p = randProp(r)
+				}
+			}
+			res := w.get(n, p)
+			ops = append(ops, fmt.Sprintf("G %d %d (%s)", n, p, res.term))
+			if res.panic != "" {
+				panics++
+				tags["get-panic"] = true
+				if len(trace) < 5 {
+					trace = append(trace, fmt.Sprintf("%s.Get(%s) panicked: %s", w.nodes[n].desc, p, res.panic))
+				}
+			} else if len(trace) < 5 && i%37 == 0 {
+				trace = append(trace, fmt.Sprintf("%s.Get(%s) = %s", w.nodes[n].desc, p, res.term))
+			}
+		}
+	}
+
+	// oracle: the computed value of every explicit declaration with a computer function,
+	// read on an identical, separately built copy of the document
+	if sh, err2 := build(src.HTML); err2 == nil {
+		sh.in = w.in
+		sh.collectElements()
+		okShadow := len(sh.nodes) == nInitial
+		for _, st := range late {
+			if !okShadow {
+				break
+			}
+			func() {
+				defer func() {
+					if recover() != nil {
+						okShadow = false
+					}
+				}()
+				if st.page != nil {
+					sh.addPage(*st.page)
+				} else {
+					sh.addAnon(st.parent)
+				}
+			}()
+		}
+		if okShadow && len(sh.nodes) == len(w.nodes) {
+			for i, nd := range w.nodes {
+				casc, ok := tree.VerifC04Cascaded(nd.style)
+				if !ok {
+					continue
+				}
+				for _, p := range nd.props {
+					if _, isDefault := casc[p.Key()].(pr.DefaultValue); isDefault {
+						continue
+					}
+					if tree.VerifC04ComputerName(p) == "" {
+						continue
+					}
+					res := sh.get(i, p)
+					if res.panic == "" {
+						nd.orc = append(nd.orc, fmt.Sprintf("Orc %d (%s)", p, strings.TrimSuffix(strings.TrimPrefix(res.term, "ROk ("), ")")))
+					}
+				}
+			}
+		} else {
+			tags["no-oracle"] = true
+		}
+	}
+
+	var nodeTerms []string
+	nDecl := 0
+	for _, nd := range w.nodes {
+		kind := "KElem"
+		if nd.anon {
+			kind = "KAnon"
+		}
+		nodeTerms = append(nodeTerms, fmt.Sprintf("mkNode %s %s %s %s", optN(nd.parent), kind, vlib.List(nd.decls), vlib.List(nd.orc)))
+		nDecl += len(nd.decls)
+	}
+	if w.in.unstable {
+		tags["unstable-print"] = true
+	}
+	var tagList []string
+	for t := range tags {
+		tagList = append(tagList, t)
+	}
+	sort.Strings(tagList)
+	kind := "doc"
+	if corpus != "" {
+		kind = "corpus"
+	}
+	return vlib.Case{Kind: kind,
+		Coq: fmt.Sprintf("CDoc %s %s", vlib.List(nodeTerms), vlib.List(ops)),
+		Desc: map[string]interface{}{"html": src.HTML, "nodes": len(w.nodes), "declarations": nDecl, "ops": len(ops),
+			"panics": panics, "sample": trace},
+		Tags: tagList, Nontrivial: nDecl > 0, Key: fmt.Sprintf("%d/%s", seed, corpus)}
+}
+
+// ---------------------------------------------------------------- tables
+
+func tableCases(w *vlib.Writer) {
+	in := newInterner()
+	nInit := 0
+	for p := pr.KnownProp(1); p < pr.NbProperties; p++ {
+		name, _ := coqStr(p.String())
+		comp, _ := coqStr(tree.VerifC04ComputerName(p))
+		iv, has := pr.InitialValues[p]
+		init := "VOpaque 999"
+		if has {
+			nInit++
+			init = in.term(p, iv)
+		}
+		w.Add(vlib.Case{Kind: "tab-prop", Coq: fmt.Sprintf("CTabProp %d %s %s %s %s (%s)", p, name,
+			vlib.Bool(pr.Inherited.Has(p)), vlib.Bool(pr.InitialNotComputed.Has(p)), comp, init),
+			Desc: map[string]interface{}{"prop": p.String(), "inherited": pr.Inherited.Has(p), "initial_not_computed": pr.InitialNotComputed.Has(p),
+				"computer": tree.VerifC04ComputerName(p), "initial": fmt.Sprintf("%#v", iv)}, Nontrivial: true})
+	}
+	nComp := 0
+	for p := pr.KnownProp(1); p < pr.NbProperties; p++ {
+		if tree.VerifC04ComputerName(p) != "" {
+			nComp++
+		}
+	}
+	for u := pr.Unit(0); u <= pr.Fr+1; u++ {
+		w.Add(vlib.Case{Kind: "tab-unit", Coq: fmt.Sprintf("CTabUnit %d %s", u, vlib.Q32(float32(pr.LengthsToPixels[u]))),
+			Desc: map[string]interface{}{"unit": int(u), "px": float32(pr.LengthsToPixels[u])}, Nontrivial: true})
+	}
+	for i, k := range pr.FontSizeKeywordsOrder {
+		s, _ := coqStr(k)
+		w.Add(vlib.Case{Kind: "tab-fsk", Coq: fmt.Sprintf("CTabFsk %d %s %s", i, s, vlib.Q32(float32(pr.FontSizeKeywords[k]))),
+			Desc: map[string]interface{}{"keyword": k, "px": float32(pr.FontSizeKeywords[k])}, Nontrivial: true})
+	}
+	bw := tree.VerifC04BorderWidthKeywords()
+	for k, v := range bw {
+		s, _ := coqStr(k)
+		w.Add(vlib.Case{Kind: "tab-bw", Coq: fmt.Sprintf("CTabBw %s %s", s, vlib.Q32(float32(v))),
+			Desc: map[string]interface{}{"keyword": k, "px": float32(v)}, Nontrivial: true, Key: "bw" + k})
+	}
+	bolder, lighter := tree.VerifC04FontWeightRelative()
+	for wgt := 0; wgt <= 1000; wgt += 50 {
+		w.Add(vlib.Case{Kind: "tab-fw", Coq: fmt.Sprintf("CTabFw true %d %d", wgt, bolder[wgt]), Desc: map[string]interface{}{"bolder": wgt, "to": bolder[wgt]}, Nontrivial: true})
+		w.Add(vlib.Case{Kind: "tab-fw", Coq: fmt.Sprintf("CTabFw false %d %d", wgt, lighter[wgt]), Desc: map[string]interface{}{"lighter": wgt, "to": lighter[wgt]}, Nontrivial: true})
+	}
+	w.Add(vlib.Case{Kind: "tab-sizes", Coq: fmt.Sprintf("CTabSizes %d %d %d %d %d %d %d %d %d %d", pr.NbProperties, len(pr.Inherited),
+		len(pr.InitialNotComputed), nComp, nInit, len(pr.LengthsToPixels), len(pr.FontSizeKeywords), len(bw), len(bolder), len(lighter)),
+		Desc: map[string]interface{}{"nb_properties": int(pr.NbProperties)}, Nontrivial: true})
+}
+
+// ---------------------------------------------------------------- main
+
+type job struct {
+	Seed   uint64
+	Corpus string
+}
+
+func main() {
+	logger.WarningLogger.SetOutput(devNull{})
+	logger.ProgressLogger.SetOutput(devNull{})
+	if vlib.IsWorker() {
+		vlib.WorkerMain(func(in string) string {
+			var j job
+			json.Unmarshal([]byte(in), &j)
+			c := runDoc(j.Seed, j.Corpus)
+			b, _ := json.Marshal(c)
+			return string(b)
+		})
+	}
+	out := flag.String("out", "cases.jsonl", "output file")
+	n := flag.Int("n", 100, "number of documents")
+	flag.Parse()
+	rng := vlib.NewRng(vlib.Seed())
+	w := vlib.NewWriter(*out)
+	defer w.Close()
+
+	tableCases(w)
+
+	var inputs []string
+	var jobs []job
+	corpus, _ := filepath.Glob("../corpus/C04/*.html")
+	sort.Strings(corpus)
+	for _, f := range corpus {
+		b, err := os.ReadFile(f)
+		if err == nil {
+			jobs = append(jobs, job{Seed: 7, Corpus: strings.TrimSpace(string(b))})
+		}
+	}
+	for i := 0; i < *n; i++ {
+		jobs = append(jobs, job{Seed: rng.U64()})
+	}
+	for _, j := range jobs {
+		b, _ := json.Marshal(j)
+		inputs = append(inputs, string(b))
+	}
+	results := vlib.RunPool(inputs, 12, 60*time.Second, 0)
+	for i, res := range results {
+		if res.Status != "ok" {
+			w.Add(vlib.Case{Kind: "worker-" + res.Status, Coq: "CBuildPanic",
+				Desc: map[string]interface{}{"job": jobs[i], "status": res.Status, "stderr": res.Out, "kind": vlib.FatalKind(res.Out)},
+				Tags: []string{"worker-" + res.Status}, Nontrivial: true})
+			continue
+		}
+		var c vlib.Case
+		if err := json.Unmarshal([]byte(res.Out), &c); err != nil {
+			fmt.Fprintln(os.Stderr, "c04: cannot decode worker output:", err)
+			os.Exit(2)
+		}
+		w.Add(c)
+	}
+}
+
+type devNull struct{}
+
+func (devNull) Write(p []byte) (int, error) { return len(p), nil }
